@@ -177,7 +177,7 @@ fn mutate_json(rng: &mut Rng, v: &Value, what: &mut String) -> Value {
                 if !s.is_empty() {
                     let mut b = s.into_bytes();
                     let i = rng.usize(b.len());
-                    b[i] = *rng.pick(b"lv02!~ \"");
+                    b[i] = *rng.pick(b"lvLV!~ \"");
                     *what = format!("non-hex character in field {k}");
                     obj.insert(k, json!(String::from_utf8_lossy(&b).to_string()));
                 }
